@@ -61,6 +61,21 @@ namespace {
   }
 }
 
+//! Decimal value of collaboration offset; nullopt if it does not fit int16_t
+/// Pre: IsInteger(text)
+[[nodiscard]] std::optional<int16_t> ParseOffset(const std::string_view text) noexcept {
+  static constexpr int32_t limit = 32767;
+  const auto negative = text.at(0) == '-';
+  int32_t value = 0;
+  for (size_t pos = negative ? 1 : 0; pos < text.length(); ++pos) {
+    value = value * 10 + (text.at(pos) - '0');
+    if (value > limit) {
+      return std::nullopt;
+    }
+  }
+  return static_cast<int16_t>(negative ? -value : value);
+}
+
 [[nodiscard]] UTF8Iterator ReferenceStart(const std::string_view refStr, const StrPos start) noexcept {
   for (auto iter = UTF8Iterator(refStr, start); iter != UTF8End(refStr); ++iter) {
     if (*iter == '@') {
@@ -130,9 +145,12 @@ Reference Reference::Parse(std::string_view refStr) {
     return Reference{ EntityRef{ std::string{ tokens.at(EntityRef::TR_ENTITY) }, std::move(form) } };
   }
   case ReferenceType::collaboration: {
+    const auto offset = ParseOffset(tokens.at(CollaborationRef::CR_OFFSET));
+    if (!offset.has_value()) {
+      return {};
+    }
     return Reference{ 
-      CollaborationRef{ std::string{ tokens.at(CollaborationRef::CR_TEXT) },
-      static_cast<int16_t>(stoi(std::string{ tokens.at(CollaborationRef::CR_OFFSET) })) } 
+      CollaborationRef{ std::string{ tokens.at(CollaborationRef::CR_TEXT) }, offset.value() } 
     };
   }
   default:
